@@ -81,7 +81,10 @@ class Verdict:
         }
         if self.notes:
             ev["coverage"]["notes"] = self.notes
-        path = os.path.join(EVIDENCE, f"{self.prop}.json")
+        extra = self.prop.startswith("X")     # coverage beyond the listed properties: own directory, own wording
+        evdir = os.path.join(ROOT, "build/alt-evidence" if _ALT else "extra_evidence") if extra else EVIDENCE
+        os.makedirs(evdir, exist_ok=True)
+        path = os.path.join(evdir, f"{self.prop}.json")
         with open(path + ".tmp", "w") as f:
             json.dump(ev, f, indent=1, default=str)
         os.replace(path + ".tmp", path)
@@ -94,7 +97,7 @@ class Verdict:
             name = hashlib.sha256(json.dumps(body, sort_keys=True, default=str).encode()).hexdigest()[:16]
             rp = os.path.join(d, name + ".json")
             json.dump(body, open(rp, "w"), indent=1, default=str)
-            print(f"VIOLATION property={self.prop} replay={rp}")
+            print(f"{'EXTRA-FINDING check' if extra else 'VIOLATION property'}={self.prop} replay={rp}")
             print(f"  signature={sig} total_cases_with_signature={self.sig_seen[sig]}")
         sys.stdout.flush()
         return 1 if self.violations else 0
